@@ -224,6 +224,9 @@ class Soap11(XmlDocument):
             raise Fault('Client.SoapError', 'Soap body is empty!')
 
         if body_document.tag == '{%s}Fault' % self.ns_soap_env:
+            if message is XmlDocument.REQUEST:
+                raise Fault('Client.SoapError', 'A Fault is not a request')
+
             ctx.in_body_doc = body_document
 
         else:
